@@ -16,7 +16,7 @@ SPEC = dict(
                  "mutations that bypass lib/fileops are not crash points themselves (images are still frozen copies of the real tree)",
                  "logical clock of the index is advanced on every reopen, as the meta service does for a restarted store"],
 )
-CLAIMED = False
+CLAIMED = True
 MANIFEST = dict(
     level="fault_enumeration", engine="crashfs",
     technique="exhaustive crash-point enumeration (every file-system mutation and torn-write prefix of bounded write/flush/drop histories) with real recovery and a last-write-wins reference",
